@@ -61,12 +61,33 @@ def replay(prop, spec, path):
 
 
 def setup():
-    """MANIFEST.setup_cmd: build every monitor once so that later checks only rebuild what changed."""
+    """MANIFEST.setup_cmd: build every monitor once so that later checks only rebuild what changed.
+    Only the harness build decides the exit code; the other pre-builds (Miri, probes, cfgmatrix,
+    downstream) are warm-ups that every check repeats on demand anyway."""
     gen_constants.generate()
     tdir = os.path.join(C.BUILD, "harness")
     rc, out, err = C.cargo_build(C.HARNESS, tdir, ["--bins"], rustflags="--cfg rrtk_verif")
     sys.stdout.write(err[-2000:])
-    return 0 if rc == 0 else 1
+    if rc != 0:
+        return 1
+    try:
+        C.build_monitor("c17_conc", hooks=False)
+        mt = os.path.join(C.BUILD, "miri")
+        lane_c16.miri(C.HARNESS, mt, "c16_miri", ["terminal", "2"])
+        lane_c16.miri(C.HARNESS, mt, "c17_conc", ["2", "2"])
+        lane_c16.miri(C.HARNESS, mt, "c17", ["--miri", "--only", "none:0"])
+        env = C.base_env()
+        env["CARGO_TARGET_DIR"] = os.path.join(C.BUILD, "probes")
+        C.run(["cargo", "build", "--offline", "--bins", "--keep-going"], cwd=lane_c16.PROBES, env=env, timeout=1200)
+        lane_c16.miri(lane_c16.PROBES, os.path.join(C.BUILD, "probes-miri"), "control_ok_rc_reference")
+        for cname, feats in lane_c17.CONFIGS:
+            env = C.base_env()
+            env["CARGO_TARGET_DIR"] = os.path.join(C.BUILD, "downstream")
+            C.run(["cargo", "build", "--offline", "--features", feats], cwd=lane_c17.DOWN, env=env, timeout=600)
+        lane_c19.build_all()
+    except Exception as e:  # warm-up only
+        print("setup warm-up skipped:", e)
+    return 0
 
 
 EXPL = "exploration"
